@@ -76,7 +76,7 @@ class ObsRunner(msglayer.Runner):
             def eb(e):
                 n = _name(e)
                 if not isinstance(e, _error.Error):
-                    n = "?not-an-aiocoap-error-instance:" + n
+                    n = "?" + n
                 self.dlog("eb:" + (n if n in ("NotObservable", "ObservationCancelled")
                                    else f"T{EXC_NAMES.index(n)}" if n in EXC_NAMES else n))
             req.observation.register_callback(lambda m: self.dlog("cb:" + self.mstr(m)),
@@ -188,6 +188,11 @@ def oracle_stack(script, res):
     if res.get("shutdown_error") and sum(1 for e in script["events"] if e[0] == "X") == 1:
         # (a second Context.shutdown() is the caller's misuse and C18's business)
         return "Context.shutdown() raised " + res["shutdown_error"], "shutdown-raised"
+    for g in res["groups"]:
+        for x in g:
+            if x.startswith("D") and (":eb:?" in x or ":rexc:?" in x):
+                return (f"the application was handed {x.split('?', 1)[1]} as the error: the end of an observation "
+                        "is an exception instance derived from aiocoap's error.Error"), "error-not-instance"
     loose = any(c.startswith(("OC@", "C@")) for c in res["concrete"])
     if loose:
         return oracle_stack_app(script, res)
